@@ -511,6 +511,27 @@ def run(ctx: Ctx) -> int:
         ctx.violation("successive-batches", f"the two batches of sample(128, batch_size=64) (seed {sd}) are identical",
                       {"kind": "measurement", "circuit": rep_src, "seed": sd, "check": "successive-batches"})
 
+    # the channel sampler on its own: every integer seed, 0 included, determines its stream (no fallback to process-global entropy),
+    # whatever numpy's global generator holds; and distinct seeds give distinct streams
+    try:
+        from tsim.noise.channels import ChannelSampler
+        probs = [np.array([0.5, 0.5]), np.array([0.25, 0.25, 0.25, 0.25]), np.array([0.75, 0.25])]
+        T = np.array([[1, 0, 1, 0], [0, 1, 0, 1], [0, 0, 1, 1]], dtype=np.uint8)
+        outs = {}
+        for sd0 in (0, 1, 2 ** 30, 0):
+            np.random.seed(len(outs) + 17)           # a seeded sampler must not read numpy's global generator
+            cs_ = ChannelSampler(probs, T, seed=sd0)
+            outs.setdefault(sd0, []).append(np.asarray(cs_.sample(64)))
+        ctx.count(("channel-sampler", "seed0"), bucket="channel-sampler-seeds")
+        if not np.array_equal(outs[0][0], outs[0][1]):
+            ctx.violation("channel-sampler-seed-0", "two ChannelSampler objects built with seed=0 return different samples (the seed does not determine the stream)",
+                          {"kind": "channel-sampler", "seed": 0, "check": "repro"})
+        if np.array_equal(outs[0][0], outs[1][0]) or np.array_equal(outs[1][0], outs[2 ** 30][0]):
+            ctx.violation("channel-sampler-seeds", "ChannelSampler objects built with different seeds (0, 1, 2^30) return identical samples",
+                          {"kind": "channel-sampler", "check": "seeds"})
+    except ImportError:
+        pass
+
     # ================================================================== 3. secondary statistics (recorded, not deciding)
     stats = {}
     try:
@@ -562,6 +583,17 @@ def replay(ctx: Ctx, obj) -> int:
         problems = check_log(log)
         print("events:", len(log), "problems now:", problems[:5])
         return 0 if not problems else 1
+    if r.get("kind") == "channel-sampler":
+        from tsim.noise.channels import ChannelSampler
+        probs = [np.array([0.5, 0.5]), np.array([0.25, 0.25, 0.25, 0.25]), np.array([0.75, 0.25])]
+        T = np.array([[1, 0, 1, 0], [0, 1, 0, 1], [0, 0, 1, 1]], dtype=np.uint8)
+        res = []
+        for k, sd0 in enumerate((0, 0, 1, 2 ** 30)):
+            np.random.seed(k + 17)
+            res.append(np.asarray(ChannelSampler(probs, T, seed=sd0).sample(64)))
+        ok = np.array_equal(res[0], res[1]) and not np.array_equal(res[1], res[2]) and not np.array_equal(res[2], res[3])
+        print("seed 0 reproducible and seeds distinct now:", ok)
+        return 0 if ok else 1
     if r.get("check") == "repro":
         def outputs():
             s = make_sampler(r["kind"], r["circuit"], r["seed"])
